@@ -224,6 +224,8 @@ class SchedRunner:
         self.sched = list(case.get("schedule", []))
         self.si = 0
         self.sopts = case.get("sopts", {})
+        import random
+        self.rng = random.Random(int(self.sopts["seed"])) if self.sopts.get("seed") else None
         self.coincidences = 0
         self.handovers = 0
         self.notes = []
@@ -263,6 +265,10 @@ class SchedRunner:
             return 0
         if self.si < len(self.sched):
             d = self.sched[self.si]
+        elif self.rng is not None:
+            # beyond the explicit prefix the decisions come from a PRNG seeded by the case itself (sopts.seed), so a
+            # short generated schedule does not degenerate into "always the first ready item"; seed 0 = old behaviour
+            d = self.rng.randrange(65536)
         else:
             d = 0
         self.si += 1
@@ -452,6 +458,9 @@ class SchedRunner:
             items = [("gate", g) for g in gates] + [("start", i) for i in unstarted[:1]]
             if self.jp and self.sopts.get("token_games"):
                 items.append(("token", None))
+                if self.sopts.get("smart_tokens") and (self.jp.available() > 0 or self.jp.held > 0):
+                    # directed families: token moves are as likely as all gate releases together
+                    items += [("token", None)] * max(0, len(gates) - 1)
             # choose what happens next
             kind, obj = items[self.decide(len(items))]
             if kind == "start":
@@ -468,6 +477,18 @@ class SchedRunner:
 
     def token_game(self):
         k = self.decide(2)
+        if self.sopts.get("smart_tokens"):
+            # prefer the action that can have an effect: steal what is in the pipe, else return what we hold
+            can_steal = self.jp.available() > 0
+            can_give = self.jp.held > 0
+            # the moment a sibling job of the parent make would grab the token: redo has parked it in the pipe and
+            # blocks in F_SETLKW waiting for a target lock
+            if can_steal and any(proc_state(p_)[1] == "72" for p_ in self.live_pids()):
+                k = 1
+            if k == 1 and not can_steal and can_give:
+                k = 0
+            elif k == 0 and not can_give and can_steal:
+                k = 1
         if k == 0:
             n = self.jp.give(1)
             self.token_log.append(("give", n))
